@@ -508,6 +508,8 @@ def check(pid, tier, seed, t0, st, replay):
             else:
                 nf, nm, nr = SIZES[tier][pid]
                 cases = scan.make_inputs(seed, nf, nm, nr, with_android=(pid in ('C03', 'C04', 'C09')))
+                if pid not in ('C06', 'C09'):
+                    cases = [c_ for c_ in cases if c_['id'] != 'deep540']      # the 540-level file is costly for the model: C06 / C09 only
             ex = scan.execute(cases, work)
             if 'error' in ex:
                 res.tie_broken.append('campaign could not run: ' + ex['error'])
